@@ -989,6 +989,20 @@ func (fc *FnCtx) transCall(env *Env, e *CCall) (Val, types.Type) {
 			}
 			i, _ := argT(2)
 			return tb.App(atf, "Str", x, i), types.Typ[types.String]
+		case "calledWith":
+			// calledWith("NAME", N, "lit"): a call of NAME with the string constant lit as N-th argument
+			// (receiver = 0) was executed earlier on this path
+			sn, ok1 := e.Args[0].(*CStr)
+			sl, ok3 := e.Args[2].(*CStr)
+			an, _ := argT(1)
+			ai, ok2 := litInt(an)
+			if !ok1 || !ok2 || !ok3 {
+				fc.tfail("calledWith needs (string literal, integer literal, string literal)")
+			}
+			if env.calleeFn != nil || env.con != fc.con {
+				return tb.Fresh("callee_calledwith", "Bool"), boolT
+			}
+			return fc.calledWithFlag(env.st, sn.Val, int(ai), sl.Val), boolT
 		case "calledAfter":
 			// calledAfter("X", "Y"): a call of X was executed after a call of Y on this path
 			sx, ok1 := e.Args[0].(*CStr)
